@@ -52,6 +52,17 @@ impl<M: Send> Channel<M> {
             drop(guard);
             if is_open {
                 for msg in vec {
+                    // The receiving code may drop the `ChannelGuard`
+                    // whilst it is being handed this batch.  Nothing
+                    // more must be forwarded after that.
+                    let closed = arc1
+                        .lock()
+                        .expect("Stakker channel lock poisoned")
+                        .waker
+                        .is_none();
+                    if closed {
+                        break;
+                    }
                     fwd.fwd(msg);
                 }
             }
